@@ -1,3 +1,92 @@
-(* C03 — IPFIX data records are decoded exactly as their templates describe (under construction:
-   theorems are added below as they are proved). *)
-From VF Require Import Base.Prelude Model.Reader Model.Flow Model.Ipfix.
+(* C03 — IPFIX data records are decoded exactly as their templates describe.
+   The specification side (Spec/FlowWire.v and the w* types of Proofs/IpfixFidelity.v) lays a message
+   out as RFC 7011 describes: header, template sets (plain and options templates, enterprise bit and
+   number), data sets whose records consist of one content string per template field (scope fields
+   first; a variable-length field carries a 1- or 3-octet length prefix), 0..3 padding octets.  The
+   theorem is the round trip through the decoder model, for ANY information model, header layout,
+   exporter address and cache state. *)
+From VF Require Import Base.Prelude Model.Reader Model.Layout Model.JsonPieces Model.Flow Model.Cache Model.Ipfix
+  Spec.FlowWire Proofs.LayoutProofs Proofs.IpfixFidelity.
+From VF Require Gen.Layouts.
+
+(* Every well-formed message decodes to the wire header fields and exactly one entry per data record, in wire
+   order, each listing the record's fields in template order (scope first) with element id, enterprise number
+   and the value interpreted by the element's type; the templates it announces are in force afterwards.
+   Well-formedness (sets_ok) includes the implementation's padding rule (tail_ok: the last record of a set plus
+   the padding exceeds 4 octets) - see C03_refuted_last_short_record for what happens otherwise. *)
+Theorem C03_ipfix_fidelity_partial : forall (im : infomodel) (a : bytes) (m : amap) hvals sets,
+  fits Gen.Layouts.ipfix_header_layout hvals ->
+  field_get "Version" (named_fields Gen.Layouts.ipfix_header_layout hvals) = 10 ->
+  sets_ok im a m sets ->
+  ipfix_decode am_ops im Gen.Layouts.ipfix_header_layout m a
+     (enc_layout Gen.Layouts.ipfix_header_layout hvals ++ flat_map (enc_set im) sets)
+  = Ok (final_map a m sets,
+        DMsg {| i_agent := a; i_header := named_fields Gen.Layouts.ipfix_header_layout hvals;
+                i_sets := expected_sets im sets |} 0).
+Proof. intros im a m hvals sets. apply ipfix_fidelity. Qed.
+Print Assumptions C03_ipfix_fidelity_partial.
+
+(* one record, any template, any contents: element id, enterprise number and typed value per field, in order *)
+Theorem C03_record_fidelity : forall (im : infomodel) tr ws rest c,
+  rec_matches tr ws -> Forall (wfield_ok im) ws ->
+  decode_data im tr {| data := enc_record im ws ++ rest; count := c |}
+  = Ok (Some (expected_record im ws), {| data := rest; count := c + len (enc_record im ws) |}).
+Proof. intros im. apply decode_data_fidelity. Qed.
+Print Assumptions C03_record_fidelity.
+
+(* The full statement (without tail_ok) is FALSE of the code: a data set of three 4-octet records, no padding,
+   yields two records.  The witness below is evaluated in the kernel; replayed on the implementation it is the
+   recorded finding 'last-record-le4' (known_findings.json). *)
+Definition le4_im : infomodel := fun pen id => if (pen =? 0) && (id =? 8) then Some (8, T_Ipv4Address) else None.
+Definition le4_tpl : wtemplate := {| wt_opts := false; wt_id := 256; wt_scope := []; wt_fields := [{| ws_id := 8; ws_len := 4; ws_ent := None |}] |}.
+Definition le4_rec (x : Z) : list wfield := [{| w_spec := to_fspec {| ws_id := 8; ws_len := 4; ws_ent := None |}; w_content := [10; 0; 0; x]; w_long := false |}].
+Definition le4_sets : list wset := [WTpl false [le4_tpl] []; WData 256 [le4_rec 1; le4_rec 2; le4_rec 3] []].
+
+Theorem C03_refuted_last_short_record :
+  exists im hvals sets,
+    (* every requirement of sets_ok except the padding rule holds: three records, each matching its template *)
+    length (expected_sets im sets) = 3%nat /\
+    match ipfix_decode am_ops im Gen.Layouts.ipfix_header_layout [] [192; 0; 2; 1]
+            (enc_layout Gen.Layouts.ipfix_header_layout hvals ++ flat_map (enc_set im) sets) with
+    | Ok (_, DMsg msg _) => length (i_sets msg) = 2%nat
+    | _ => False
+    end.
+Proof. exists le4_im, [10; 52; 1; 2; 3], le4_sets. vm_compute. split; reflexivity. Qed.
+Print Assumptions C03_refuted_last_short_record.
+
+(* non-vacuity of the positive theorem: a message with an options template (scope + enterprise element), a
+   variable-length field in both prefix forms, two sets and padding satisfies sets_ok *)
+Definition ex_im : infomodel := fun pen id =>
+  if (pen =? 0) && (id =? 8) then Some (8, T_Ipv4Address) else if (pen =? 0) && (id =? 82) then Some (82, T_String)
+  else if (pen =? 9) && (id =? 2) then Some (2, T_Uint32) else if (pen =? 0) && (id =? 1) then Some (1, T_Uint64) else None.
+Definition ex_tpl1 : wtemplate := {| wt_opts := true; wt_id := 300; wt_scope := [{| ws_id := 2; ws_len := 4; ws_ent := Some 9 |}];
+                                     wt_fields := [{| ws_id := 82; ws_len := 65535; ws_ent := None |}; {| ws_id := 1; ws_len := 8; ws_ent := None |}] |}.
+Definition ex_rec (long : bool) : list wfield :=
+  [{| w_spec := to_fspec {| ws_id := 2; ws_len := 4; ws_ent := Some 9 |}; w_content := [0; 0; 1; 2]; w_long := false |};
+   {| w_spec := to_fspec {| ws_id := 82; ws_len := 65535; ws_ent := None |}; w_content := [101; 116; 104; 48]; w_long := long |};
+   {| w_spec := to_fspec {| ws_id := 1; ws_len := 8; ws_ent := None |}; w_content := [0; 0; 0; 0; 0; 0; 3; 232]; w_long := false |}].
+Example C03_instance : sets_ok ex_im [10; 0; 0; 1] [] [WTpl true [ex_tpl1] [0; 0]; WData 300 [ex_rec false; ex_rec true] [0; 0; 0]; WData 300 [ex_rec true] []].
+Proof.
+  assert (Hm : forall l, Forall (rec_matches (template_of ex_tpl1)) [ex_rec l]).
+  { intros l. constructor; [|constructor]. exists (firstn 1 (ex_rec l)), (skipn 1 (ex_rec l)). repeat split; try reflexivity. discriminate. }
+  assert (Hf : forall l, Forall (wfield_ok ex_im) (ex_rec l)).
+  { intros l. repeat constructor; cbn; try (eexists; eexists; reflexivity); try lia; destruct l; cbn; intros; try lia; try discriminate. }
+  cbn [sets_ok]. repeat split.
+  - repeat constructor; cbn; try lia; try discriminate; try (intros; discriminate).
+  - repeat constructor.
+  - discriminate.
+  - cbn; lia.
+  - exists (template_of ex_tpl1). split; [lia|]. split; [vm_compute; reflexivity|].
+    constructor; [apply (Forall_inv (Hm false))|apply Hm].
+  - constructor; [apply Hf|constructor; [apply Hf|constructor]].
+  - repeat constructor; vm_compute; reflexivity.
+  - discriminate.
+  - cbn; lia.
+  - vm_compute. intros H; discriminate H.
+  - exists (template_of ex_tpl1). split; [lia|]. split; [vm_compute; reflexivity|]. apply Hm.
+  - constructor; [apply Hf|constructor].
+  - repeat constructor; vm_compute; reflexivity.
+  - discriminate.
+  - cbn; lia.
+  - vm_compute. intros H; discriminate H.
+Qed.
